@@ -12,6 +12,9 @@ ASSUMPTIONS = ["from_dict / load routes are exercised by C14 / C05's checks (the
 
 PROFILES = [
     dict(name="collide", typed=False, malformed=0.05, ops=["add", "add", "addnode", "addnode", "addtree", "move", "move", "remove", "setdata", "setdata", "shortcut"]),
+    # equal data_ids on data objects that are not == (explicit ids): collisions that only an id comparison sees
+    dict(name="collide-explicit-ids", typed=False, malformed=0.05, did_rate=0.7, dids=(1001, 1002),
+         ops=["add", "add", "add", "addnode", "move", "move", "move", "remove", "setdata", "shortcut"]),
     dict(name="collide-typed", typed=True, malformed=0.05, ops=["add", "add", "addnode", "addtree", "remove", "setdata", "shortcut"]),
 ]
 SMALL = [[0, 1], [0, 1, 18, 19]]   # tiny alphabets: collisions are the norm
